@@ -18,6 +18,7 @@ import (
 	"database/sql"
 	"encoding/json"
 	"fmt"
+	"os"
 	"path/filepath"
 	"runtime"
 	"sort"
@@ -111,8 +112,18 @@ func setup(r *vt.Run, t *testing.T) {
 		for _, q := range schemaStmts(rows) {
 			init = append(init, oracle.Stmt{SQL: q})
 		}
+		if i == 1 {
+			// this file keeps a (committed, not hot) journal next to it:
+			// every open and every read transaction looks into it
+			init = append(init, oracle.Stmt{SQL: "PRAGMA journal_mode=PERSIST", Fetch: true}, oracle.Stmt{SQL: "UPDATE t SET b = b WHERE a = 1"})
+		}
 		res, err := env.Create("c20", path, []int{512, 1024, 4096}[i], 0, init)
 		sqdb.MustOK(r, t, "create", res, err, len(init)+2)
+		if i == 1 {
+			if st, err := os.Stat(path + "-journal"); err != nil || st.Size() == 0 {
+				r.Harness(t, "no persistent journal next to %s: %v", path, err)
+			}
+		}
 		env.O.Close("c20")
 		files = append(files, path)
 	}
